@@ -60,6 +60,10 @@ func VerifC11Rounds() {
 			}
 		}
 		advance(fmt.Sprint("r", r, ".dtB"))
+		// node x may register again (a reconnect) before its keep-alive: that does not touch what it tracks
+		if r > 0 && verifapi.Param("reregister", 0) == 1 && verifapi.Bool(fmt.Sprint("r", r, ".x-registers-again")) {
+			verifapi.Assert(d.SetNode(store.Node{ID: x, Kind: "geth", LastSeen: now}) == nil, "c11.rounds.setup")
+		}
 		var list []string
 		reported := make([]bool, np)
 		for i := 0; i < np; i++ {
